@@ -21,7 +21,9 @@ obligation: the `rej_*` programs (Program.expect_compile=False) must be rejected
 
 Excluded on purpose: `Pointer` with a bare field as the *argument* (`#[display("{:p}", _0)]`): formatted directly, `_0` is a
 reference to the field and `{:p}` prints the field's address through std's integer formatting, whose padding loops run up to
-the (symbolic) width. That program is carried by C02 (default options) instead, where it exposes a genuine defect.
+the (symbolic) width. That program is carried by C02 (default options) instead (it exposed a defect there, fixed in /repo f6717fb).
+Also outside: `#[display("{K}")]` with a constant K in scope delegates to K (tests/display.rs asserts it); K is neither an argument
+nor a field, the property sentence does not cover it.
 """
 import itertools
 import random
@@ -155,7 +157,7 @@ def cases(tier, seed):
                 add("mod_%s_%s_%s" % (lab, SHORT[t], rlab), next(rot), kind, Attr([ph_with(parg, TY[t], mod)], a))
     # D. surrounding text, escapes, several placeholders                                               (inert)
     ctx = [("textbefore", lambda p: ["a", p]), ("textafter", lambda p: [p, "b"]), ("escbefore", lambda p: ["{", p]),
-           ("escafter", lambda p: [p, "}"]), ("twice", lambda p: [p, PH(p.arg, ty=p.ty)]), ("space", lambda p: [" ", p])]
+           ("escafter", lambda p: [p, "}"]), ("twice", lambda p: [p, PH(0 if p.arg is None else p.arg, ty=p.ty)]), ("space", lambda p: [" ", p])]
     for lab, mk in ctx:
         for rlab, parg, args, kind in ([REFS[2]] if tier == "quick" else [REFS[2], REFS[1], REFS[4]]):
             for t in (("LowerHex",) if tier == "quick" else ("LowerHex", "Display", "Pointer")):
